@@ -784,9 +784,10 @@ func sameOrConverted(a, b ssa.Value) bool {
 
 func checkC01(c *Ctx) {
 	r, t := c.R, c.T
-	r.Explanation = "Decides the absence of *unguarded* panic sites in everything reachable from Script.Run/RefRun and the 23 registered builtins inside the module (explicitly resolved call graph): every single-result type assertion, index/slice expression, integer division, computed make, explicit panic and dereference of a success-nilable AST field is enumerated from go/ssa and must be discharged by one of the rules: comma-ok form; assertion dominated by the matching type tag of the same value / accessor called under the matching NodeType; constant index into a fixed-size array; constant index with len(path) > k proved by a forward length dataflow whose entry state for a builtin is the set of argument counts its checker accepts (CHECKER↔RUNNER); range-loop index; two-sided 0 ≤ i < len(x) guard; bounded struct field proved over all its writers (PlReg.count ≤ 6); non-zero divisor (constant or dominated by a zero test); make size that is a len() or non-negative constant arithmetic; nil test on the same access path. Plus CHILD-VISIT/DISPATCH (shared with C08): the v1 check pass visits every child position of every node kind, so that every call in an accepted script went through its checker — the premise of CHECKER↔RUNNER. Plus ERR-SHAPE: every non-nil error returned in scope is built by NewRunError/NewErr with the task's name or is a callee's error passed through (C17 decides the position). Not decided: panics inside third-party callees (grok, xmlquery, dateparse, obfuscate, cast — listed as the trusted boundary), stack exhaustion, integer overflow that does not end in a panic."
+	r.Explanation = "Decides the absence of *unguarded* panic sites in everything reachable from Script.Run/RefRun and the 23 registered builtins inside the module (explicitly resolved call graph): every single-result type assertion, index/slice expression, integer division, computed make, explicit panic and dereference of a success-nilable AST field is enumerated from go/ssa and must be discharged by one of the rules: comma-ok form; assertion dominated by the matching type tag of the same value / accessor called under the matching NodeType; constant index into a fixed-size array; constant index with len(path) > k proved by a forward length dataflow whose entry state for a builtin is the set of argument counts its checker accepts (CHECKER↔RUNNER); range-loop index; two-sided 0 ≤ i < len(x) guard; bounded struct field proved over all its writers (PlReg.count ≤ 6); non-zero divisor (constant or dominated by a zero test); make size that is a len() or non-negative constant arithmetic; nil test on the same access path. Plus CHILD-VISIT/DISPATCH (shared with C08): the v1 check pass visits every child position of every node kind, so that every call in an accepted script went through its checker — the premise of CHECKER↔RUNNER. Plus ERR-SHAPE: every non-nil error returned in scope is built by NewRunError/NewErr with the task's name or is a callee's error passed through (C17 decides the position). Plus RECURSION: every call cycle in the run scope passes a syntax-tree or scope-chain parameter (bounded by the loaded script), none recurses over run-time values, which a script can make cyclic. Not decided: panics inside third-party callees (grok, xmlquery, dateparse, obfuscate, cast — listed as the trusted boundary), stack exhaustion by scripts nested thousands of levels deep, integer overflow that does not end in a panic."
 	r.Trusted = []string{"github.com/GuanceCloud/grok", "github.com/antchfx/xmlquery", "github.com/araddon/dateparse", "DataDog obfuscate", "github.com/spf13/cast", "encoding/json", "fmt", "strings", "regexp", "net/url", "time"}
 	scope := runScope(t)
+	recursionRule(c, "RECURSION", scope, "v1")
 	_, s2k := kindTable(t)
 	g := c.Gram()
 	d := &dischargeCtx{t: t, s2k: s2k, flows: map[*ssa.Function]map[*ssa.BasicBlock]lenState{}, initLen: map[*ssa.Function]lenState{}, bounded: boundedFields(t)}
@@ -1736,4 +1737,151 @@ func (d *dischargeCtx) closureBound(f *ssa.Function, base, idx ssa.Value) string
 		}
 	}
 	return fmt.Sprintf("every call of the closure (%d) passes an index within the length %s knows for the captured container", len(sites), f.Parent().Name())
+}
+
+// recursionRule (C01, C18): stack exhaustion is not recoverable — Go aborts the process, no error value is returned.
+// Every recursion in the run scope must therefore be bounded by something a loaded script fixes: the depth of the
+// syntax tree (a parameter of a pkg/ast type decreases along the tree) or of the scope chain. A recursion driven by a
+// run-time *value* (a list or map walked element by element) is unbounded, because index assignment stores
+// containers by reference and a script can make a list contain itself (`a = [0]; a[0] = a`).
+func recursionRule(c *Ctx, rule string, scope map[*ssa.Function]bool, tag string) {
+	r, t := c.R, c.T
+	var fns []*ssa.Function
+	for f := range scope {
+		fns = append(fns, f)
+	}
+	sortFuncs(fns)
+	succ := map[*ssa.Function][]*ssa.Function{}
+	for _, f := range fns {
+		seen := map[*ssa.Function]bool{}
+		add := func(g *ssa.Function) {
+			if g != nil && scope[g] && !seen[g] {
+				seen[g] = true
+				succ[f] = append(succ[f], g)
+			}
+		}
+		for _, a := range f.AnonFuncs {
+			add(a)
+		}
+		allInstrs(f, func(in ssa.Instruction) {
+			if ci, ok := in.(ssa.CallInstruction); ok {
+				// static callees only: interface dispatch (error.Error, fmt.Stringer) would tie unrelated methods into
+				// cycles that no execution follows; a recursion closed through an interface method is not seen (stated limit)
+				add(ci.Common().StaticCallee())
+			}
+			for _, op := range in.Operands(nil) {
+				if op != nil && *op != nil {
+					if g, ok := (*op).(*ssa.Function); ok {
+						add(g)
+					}
+				}
+			}
+		})
+	}
+	// Tarjan
+	index, low := map[*ssa.Function]int{}, map[*ssa.Function]int{}
+	on := map[*ssa.Function]bool{}
+	var stack []*ssa.Function
+	var sccs [][]*ssa.Function
+	n := 0
+	var strong func(v *ssa.Function)
+	strong = func(v *ssa.Function) {
+		n++
+		index[v], low[v] = n, n
+		stack = append(stack, v)
+		on[v] = true
+		for _, w := range succ[v] {
+			if index[w] == 0 {
+				strong(w)
+				if low[w] < low[v] {
+					low[v] = low[w]
+				}
+			} else if on[w] && index[w] < low[v] {
+				low[v] = index[w]
+			}
+		}
+		if low[v] == index[v] {
+			var comp []*ssa.Function
+			for {
+				w := stack[len(stack)-1]
+				stack = stack[:len(stack)-1]
+				on[w] = false
+				comp = append(comp, w)
+				if w == v {
+					break
+				}
+			}
+			sccs = append(sccs, comp)
+		}
+	}
+	for _, f := range fns {
+		if index[f] == 0 {
+			strong(f)
+		}
+	}
+	treeBound := func(f *ssa.Function) (bool, string) {
+		check := func(tp types.Type) (bool, string) {
+			for i := 0; i < 3; i++ {
+				if p, ok := tp.(*types.Pointer); ok {
+					tp = p.Elem()
+					continue
+				}
+				if s, ok := tp.(*types.Slice); ok {
+					tp = s.Elem()
+					continue
+				}
+				break
+			}
+			if nm, ok := tp.(*types.Named); ok && nm.Obj().Pkg() != nil {
+				if nm.Obj().Pkg().Path() == pAst {
+					return true, "ast." + nm.Obj().Name()
+				}
+				if nm.Obj().Name() == "Stack" && strings.HasPrefix(nm.Obj().Pkg().Path(), mod) {
+					return true, "scope chain"
+				}
+			}
+			return false, ""
+		}
+		for _, p := range f.Params {
+			if ok, why := check(p.Type()); ok {
+				return true, why
+			}
+		}
+		for _, fv := range f.FreeVars {
+			if ok, why := check(fv.Type()); ok {
+				return true, why
+			}
+		}
+		return false, ""
+	}
+	nCyc := 0
+	for _, comp := range sccs {
+		cyclic := len(comp) > 1
+		if !cyclic {
+			for _, w := range succ[comp[0]] {
+				if w == comp[0] {
+					cyclic = true
+				}
+			}
+		}
+		if !cyclic {
+			continue
+		}
+		nCyc++
+		sortFuncs(comp)
+		var names, bad []string
+		for _, f := range comp {
+			names = append(names, relName(f))
+			if ok, _ := treeBound(f); !ok {
+				bad = append(bad, relName(f))
+			}
+		}
+		key := names[0]
+		if len(names) > 1 {
+			key = fmt.Sprintf("%s (+%d)", names[0], len(names)-1)
+		}
+		r.Ob(rule, fmt.Sprintf("%s recursion through %s descends the syntax tree or the scope chain", tag, key), t.Pos(comp[0].Pos()), len(bad) == 0,
+			fmt.Sprintf("cycle of %d functions; without a tree-typed or scope-chain parameter: %v — a recursion over run-time values does not end on a list or map that contains itself, and stack exhaustion aborts the host process", len(comp), bad))
+	}
+	r.Extra[rule+"_"+tag+"_recursive_components"] = nCyc
 }
